@@ -193,10 +193,17 @@ func (c JSONArrayCodec) Read(data []byte, ptr unsafe.Pointer, wt plenccore.WireT
 	offset := n
 
 	a := *(*[]any)(ptr)
-	if a == nil {
+	if uint64(cap(a)) < count {
 		a = make([]any, count)
-		*(*[]any)(ptr) = a
+	} else {
+		// A re-used target holds exactly the encoded elements, with nothing
+		// left over from before
+		a = a[:count]
+		for i := range a {
+			a[i] = nil
+		}
 	}
+	*(*[]any)(ptr) = a
 
 	for i := range a {
 		l, n := plenccore.ReadVarUint(data[offset:])
